@@ -93,7 +93,10 @@ func genExtLines(t *rapid.T, pmd []string) []string {
 			cur = ""
 		}
 		if cur != "" {
-			cur += rapid.SampledFrom([]string{", ", ",", " , "}).Draw(t, "ext_sep")
+			cur += rapid.SampledFrom([]string{", ", ",", " , ", ",\t", "\t,\t"}).Draw(t, "ext_sep")
+		}
+		if rapid.IntRange(0, 3).Draw(t, "ext_tabs") == 0 {
+			e = strings.ReplaceAll(e, "; ", ";\t") // HTAB is optional whitespace just as SP is
 		}
 		cur += e
 	}
